@@ -374,6 +374,9 @@ M('c15-nc-floor-as-guard', ['C15'], Y23 + 'fnc_d_400.py', "FloatField('15', lamb
 M('c15-s3-capped-at-tax', ['C15'], Y23 + 'f1040_s3.py', "            return foreign_tax if foreign_tax > 0.001 else None\n", "            foreign_tax = min(foreign_tax, v['1040.16'])\n            return foreign_tax if foreign_tax > 0.001 else None\n", None, 'Schedule 3 line 1 limited to the tax (repair of the known finding F26): the repaired tree must be quiet', 'silent')
 
 # ------------------------------------------------------------------ C16
+M('c16-wkst-20-wrong-operand', ['C16'], Y23 + 'f1040_qualdiv_capgain_tax_wkst.py', "FloatField('20', lambda s, i, v: v['10'] - v['19']),", "FloatField('20', lambda s, i, v: v['4'] - v['19']),", 'R16.8', 'capital-gain worksheet line 20 starts from line 4 instead of line 10: more wages lower the tax, a larger deduction raises it (seed C16-C, 2023)')
+M('c16-medical-floor-sign', ['C16'], Y23 + 'f1040_sa.py', "FloatField('3', lambda s, i, v: 0.075 * v['2']),", "FloatField('3', lambda s, i, v: -0.075 * v['2']),", 'R16.8', 'the medical-expense floor grows the deduction with income: the deduction no longer falls when wages grow', accept_error=True)
+M('c16-min-as-conditional', ['C16'], Y23 + 'f1040_qualdiv_capgain_tax_wkst.py', "FloatField('25', lambda s, i, v: min(v['23'], v['24'])),", "FloatField('25', lambda s, i, v: v['23'] if v['23'] < v['24'] else v['24']),", None, 'smaller-of written as a comparison: an input-dependent cut that is crossed continuously', 'silent')
 M('c16-nc-withholding-owner-dropped', ['C16'], Y22 + 'fnc_d_400.py', "[enum.taxpayer_or_spouse.spouse, enum.taxpayer_spouse_or_both.spouse])", "[enum.taxpayer_or_spouse.spouse])", None, 'NC tax withheld on a 1099 owned by the spouse reaches neither line 20a nor 20b (seed C16-E)')
 M('c16-nc-withholding-both-twice', ['C16'], Y23 + 'fnc_d_400.py', "[enum.taxpayer_or_spouse.spouse, enum.taxpayer_spouse_or_both.spouse])", "[enum.taxpayer_or_spouse.spouse, enum.taxpayer_spouse_or_both.spouse, enum.taxpayer_spouse_or_both.both])", 'R16.7', 'NC tax withheld on a jointly owned 1099 is counted on both line 20a and line 20b')
 M('c16-election-threshold-differs', ['C16'], Y23 + 'f1040.py', "(v['1040_sa.17'] >= standard_deduction(s, i) or i['1040_sa.itemize_though_less'])", "(v['1040_sa.17'] >= standard_deduction(s, i) - 500.0 or i['1040_sa.itemize_though_less'])", 'R16.6', 'itemizing is chosen from 500 below the standard deduction: a larger Schedule A total can lower line 12')
